@@ -78,6 +78,40 @@ def shard_words(spec):
     return acc
 
 
+DATES = ["", "2001-01-01", "2001-001", "2001-1-1", "1990-7", "0000-01-01", "2001-13-01", "2001-366",
+         "2000-366", "99-1", "2001-02-30", "-2001-01-01"]
+TIMES = ["", "12:00", "12:00:60", "23:59:60.5", "24:00", "1:2", "12:00:00.123456", "12:00:00.1234567",
+         "12:60", "12:00:61", "12", "12:00:00.", "00:00:00"]
+ZONES = ["", "Z", "+1", "+01", "-01", "+13", "+01:30", "-0130", "+1:30", "+0", "-12:60", "z", "+", "-",
+         "+01:", "Z+01", "+001", "-1:5"]
+
+
+def temporal_tokens():
+    for d in DATES:
+        for t in TIMES:
+            if not d and not t:
+                continue
+            for z in ZONES:
+                yield d + ("T" if d and t else "") + t + z
+            if d and t:
+                yield d + " " + t
+                yield d + "t" + t
+
+
+def shard_temporal(spec):
+    part, nparts = spec
+    acc = Acc()
+    for i, tok in enumerate(temporal_tokens()):
+        if i % nparts != part:
+            continue
+        for text in ("k = %s" % tok, "k = (%s, %s)\nEND" % (tok, tok), "k = {%s} <m>" % tok,
+                     "GROUP = g\n k = %s <s>\nEND_GROUP" % tok):
+            judge(acc, "temporal", text, {})
+            acc.nontrivial += 1
+    acc.sample({"temporal": "k = 2001-001T12:00:60+01:30"}, cap=1)
+    return acc
+
+
 def corpus_files():
     root = os.path.join(impl.REPO, "tests", "data")
     fs = sorted(glob.glob(os.path.join(root, "**", "*"), recursive=True))
@@ -146,6 +180,8 @@ def run(ctx):
     # keyword-level strings without forced separators
     kw = 4 if q else 5
     ctx.pmap(shard_words, [(kw, [a, b]) for a in ALPHA_KW for b in ALPHA_KW], into=acc)
+    # field products of date / time / zone fragments (valid and invalid) as values
+    ctx.pmap(shard_temporal, [(p, 32) for p in range(32)], into=acc)
     # corpus, exhaustive single faults
     files = corpus_files()
     cspecs = []
@@ -166,7 +202,7 @@ def run(ctx):
         "evaluations": acc.n, "distinct_nontrivial": acc.nontrivial,
         "rule": "every string over %r up to length %d, over %r up to length %d, over %r up to length %d; every "
                 "token sequence of length <= %d over the 18-token alphabet rendered with single spaces; every "
-                "concatenation of <= %d items of %r; every single-character fault (quick: truncation everywhere, "
+                "concatenation of <= %d items of %r; every product of date x time x zone fragments (valid and invalid) in 4 value contexts; every single-character fault (quick: truncation everywhere, "
                 "deletion in files <= 1500 chars; thorough: truncation, deletion, duplication, adjacent swap) of "
                 "%d corpus files (%d characters); each through the 5 loader configurations under a step "
                 "budget of 200+60*len (x20 before a spin is reported); distinct_nontrivial counts distinct "
